@@ -154,6 +154,23 @@ def case_cov(B, cfg):
             ps.arr(B, vth[i]), ps.arr(B, [eta[i]]))
         psi_ref.append(list(r[0]))
     B.eq_array('individual parameters = underlying(vartheta_i)', psi, psi_ref)
+    # return_eta=True (the first call of a hierarchical likelihood): the
+    # bottom-level values themselves -- for a wrapped model without
+    # bottom-level parameters, the individuals' own shifted parameters
+    try:
+        got_eta = m.compute_individual_parameters(
+            ps.arr(B, theta), ps.arr(B, eta), covariates=cov, return_eta=True)
+    except Exception as e:
+        got_eta = None
+        B.fact('no-exception:compute_individual_parameters(return_eta=True)',
+               False, repr(e))
+    if got_eta is not None:
+        B.fact('return_eta=True: shape', np.shape(got_eta) == (n_ids, n_dim),
+               repr(np.shape(got_eta)))
+        if np.shape(got_eta) == (n_ids, n_dim):
+            B.eq_array('return_eta=True: bottom-level values (pooled: the '
+                       'shifted parameter of each individual)', got_eta,
+                       psi_ref if kind == 'pooled' else eta)
     # the caller keeps the array: a later evaluation at other parameters (and
     # other covariates) does not change what it holds
     # (population parameters shifted by one, same coefficients and
